@@ -170,14 +170,19 @@ def validOpts (o : FieldOpts) : Bool :=
   (o.param = [] || !o.isPrefix) &&
   (!o.inline || (!o.isPrefix && o.length > 0))
 
+/-- A field that owns a required fragment of its own. -/
+def countsAsRequired (f : FieldInfo) : Bool := !f.opts.group && !f.opts.omitEmpty && !f.opts.inline
+
 /-- `typeInfo.normalize`. -/
 def normalizeLoop (all : List FieldInfo) : List FieldInfo → TypeInfo → List Bytes → Except TagErr TypeInfo
-  | [], ti, _ => .ok ti
+  | [], ti, _ =>
+    -- NumReqValues counts the fields that survive name resolution (after the repair of the shadowed-param
+    -- over-count: a param shadowed by an embedded struct's field of the same name is one field, not two)
+    .ok { ti with numReqValues := (ti.fields.filter countsAsRequired).length }
   | f :: rest, ti, seen =>
     if !validOpts f.opts then .error (.invalidTag f.name f.tag)
     else if f.opts.isPrefix then normalizeLoop all rest { ti with hashPrefix := some f } seen
     else
-      let ti := if !f.opts.group && !f.opts.omitEmpty && !f.opts.inline then { ti with numReqValues := ti.numReqValues + 1 } else ti
       if f.opts.param = [] then normalizeLoop all rest { ti with fields := ti.fields ++ [f] } seen
       else if seen.contains f.opts.param then normalizeLoop all rest ti seen
       else
